@@ -20,6 +20,7 @@ class Engine(ContainerMixin, ContractMixin, FlowMixin, StmtMixin, CallMixin, Exp
         self.no_inv_assume = False
         self.no_inv_check = False
         self.cur_scope = None
+        self.init_self = None
         self.me_const = z3.Const("me", RefS)
         # make sure the class constants the kernel theory talks about exist
         for n in ("Interrupt", "GeneratorExit", "BaseException", "Exception", "NoneType", "Ellipsis", "coroutine", "object"):
